@@ -364,7 +364,8 @@ func (c c15) runProbe(x *Exec, s *C15Scn) {
 			nontrivial = true
 			prop := "prop_" + a.Name
 			cfg[caseKey(prop, s.Style.KeyCase)] = val
-			put(a.Name, "${"+prop+"}")
+			// white space around a value is insignificant, around a placeholder too
+			put(a.Name, []string{"", "", " ", "\t"}[len(val)%4]+"${"+prop+"}"+[]string{"", " ", "", "\n"}[len(a.Name)%4])
 		case "chain":
 			nontrivial = true
 			p1, p2 := "chain_"+a.Name, "target_"+a.Name
